@@ -442,3 +442,39 @@ def membership_test(test: ast.AST, evaluate):
         if all(p is not None for p in parts) and len({p[0] for p in parts}) == 1:
             return parts[0][0], frozenset().union(*[p[1] for p in parts])
     return None
+
+
+def inline_self_aliases(func: "FuncInfo") -> "FuncInfo":
+    """A copy of the function in which every local that is assigned exactly once, from an attribute chain rooted at `self`
+    (`data = self.data`, `name = newEncoding.name` is NOT one: only `self.<..>` chains and `<param>.<attr>` chains of depth one),
+    is replaced by that expression wherever it is read, and the assignment is dropped.  Rules that recognise `self.data.skip()`
+    thereby also recognise `data = self.data; data.skip()`."""
+    import copy
+    node = copy.deepcopy(func.node)
+    params = set(func.params())
+    stores = {}
+    for n in ast.walk(node):
+        if isinstance(n, ast.Name) and isinstance(n.ctx, (ast.Store, ast.Del)):
+            stores[n.id] = stores.get(n.id, 0) + 1
+    alias = {}
+    for st in ast.walk(node):
+        if isinstance(st, ast.Assign) and len(st.targets) == 1 and isinstance(st.targets[0], ast.Name) and stores.get(st.targets[0].id) == 1 \
+                and st.targets[0].id not in params:
+            ch = attr_chain(st.value)
+            if ch and (ch[0] == "self" or (ch[0] in params and len(ch) == 2)) and isinstance(st.value, ast.Attribute):
+                alias[st.targets[0].id] = st.value
+
+    class T(ast.NodeTransformer):
+        def visit_Name(self, n):
+            if isinstance(n.ctx, ast.Load) and n.id in alias:
+                return ast.copy_location(copy.deepcopy(alias[n.id]), n)
+            return n
+
+        def visit_Assign(self, n):
+            if len(n.targets) == 1 and isinstance(n.targets[0], ast.Name) and n.targets[0].id in alias:
+                return ast.copy_location(ast.Pass(), n)
+            return self.generic_visit(n)
+    node = ast.fix_missing_locations(T().visit(node))
+    g = copy.copy(func)
+    g.node = node
+    return g
